@@ -146,6 +146,13 @@ func explore(p *pool, specs []HarnessSpec, cfg exploreCfg) map[string]*harnessRe
 					mu.Unlock()
 					continue
 				}
+				if len(hr.Budget) >= 24 {
+					// many paths already ran out of budget (a hang in the code under
+					// test): the candidates are kept, the rest is not explored
+					hr.Truncated = true
+					mu.Unlock()
+					continue
+				}
 				started[j.spec.Func]++
 				inflight++
 				nextID++
@@ -249,6 +256,12 @@ func (hr *harnessResult) absorb(r *interp.PathResult, cfg exploreCfg) {
 		hr.EngineErrs = append(hr.EngineErrs, fmt.Sprintf("prefix %v: %s", r.Prefix, r.Detail))
 	case "budget":
 		hr.Budget = append(hr.Budget, r.Detail)
+		// a path that does not finish within the instruction budget is a
+		// candidate hang: it is reported only if the native run hangs too
+		if r.HasWitness && len(hr.Budget) <= 3 {
+			hr.Violations = append(hr.Violations, violationRec{hr.Spec.Func, interp.Violation{
+				Label: "terminates", Kind: "hang", Detail: r.Detail, Inputs: r.Witness, Prefix: r.Decisions}})
+		}
 	case "panic", "deadlock", "exit":
 		// implicit obligation: no uncaught panic / no deadlock
 		hr.Obligations["violated"]++
